@@ -15,7 +15,7 @@ RULE = ('cases = one call of generate_data (or of the naive generator / generato
         'in a fresh process) and compared bit for bit. distinct = argument signature; non-trivial = a structure is present, or ensure_rep with '
         'n <= 2*|domain|, or random_values.')
 REQUIRED = {'shape-dtype': 200, 'values-in-domain': 200, 'positions': 50, 'ensure-rep': 50, 'seed-reproducible': 200, 'naive-label': 5, 'generator-task-csv': 2, 'fresh-process-reproducible': 1}
-ASSUMPTIONS = ['structure indices are ascending and within range (documented usage)', 'the naive generator is driven with >= 31 features (its needle is column 30)']
+ASSUMPTIONS = ['structure indices are ascending and within range (documented usage)', 'explicit value lists hold distinct values (a list with repeats is not a domain declaration; the harness generated one once - false alarm of the generator, corrected)', 'the naive generator is driven with >= 31 features (its needle is column 30)']
 WARM = None
 
 
@@ -36,6 +36,10 @@ def make_case(rng):
     low = rng.choice([0, 0, 5, -3])
     high = low + rng.choice([card - 1, card, card + 3, 1000]) if random_values else 1000
     high = max(high, low + card - 1)
+    if random_values and rng.random() < 0.3:
+        # bounds ending exactly at 0 / -1 / 1 (falsy and sign boundaries)
+        high = rng.choice([0, 0, -1, 1])
+        low = high - (card - 1) - rng.choice([0, 1, 20])
     ensure_rep = rng.random() < 0.5
     ns = rng.choice([1, 2, 7, 50, 400, 3000])
     if rng.random() < 0.4:
@@ -65,7 +69,8 @@ def make_case(rng):
                     attr = card
                     dom = default_dom
             elif kind == 'values':
-                vals = [basev + j * rng.choice([1, 3]) for j in range(rng.choice([1, 2, 5]))]
+                step = rng.choice([1, 3])
+                vals = [basev + j * step for j in range(rng.choice([1, 2, 5]))]          # distinct values: a value list denotes a set
                 attr = vals if rng.random() < 0.5 else __import__('numpy').array(vals)
                 dom = ('set', set(vals))
             else:
@@ -141,6 +146,14 @@ def shard_generate(sh, part):
         np.random.standard_normal(3)
         ok3, X3 = sh.call('seed-reproducible', 'generate_data', cc3.generate_data, **kw)
         again.append(('new-object-after-rng-use', X3 if ok3 else None))
+        if t % 3 == 0:
+            # the documented default seed: leaving `seed` out must be just as reproducible
+            kd = {k: v for k, v in kw.items() if k != 'seed'}
+            okd, D1 = sh.call('seed-reproducible', 'generate_data', cc.generate_data, **kd)
+            np.random.random(2)
+            okd2, D2 = sh.call('seed-reproducible', 'generate_data', cc.generate_data, **kd)
+            if okd and okd2:
+                sh.check('seed-reproducible', D1.shape == D2.shape and bool((D1 == D2).all()), 'default-seed-call-not-reproducible', lambda: wit(how='seed argument omitted, called twice', first=D1[:4].tolist(), second=D2[:4].tolist()))
         for tag, Y in again:
             if Y is not None:
                 sh.check('seed-reproducible', Y.shape == X.shape and bool((Y == X).all()), 'same-seed-different-data', lambda: wit(how=tag, second_head=Y[:6].tolist()))
